@@ -17,6 +17,7 @@
 #include <gmssl/mem.h>
 #include <gmssl/sm9_z256.h>
 #include <gmssl/error.h>
+#include <gmssl/verif.h>
 #include <gmssl/endian.h>
 #include <gmssl/rand.h>
 
@@ -151,7 +152,14 @@ int sm9_z256_rand_range(sm9_z256_t r, const sm9_z256_t range)
 {
 	unsigned int max_tries = 100;
 
-	do {
+	do
+	VERIF_LOOP_ASSIGNS(max_tries, VERIF_OBJ_UPTO((uint8_t *)r, 32), verif_rb_fail, verif_rb_calls, verif_rb_buf, verif_rb_len)
+	VERIF_LOOP_INVARIANT(max_tries <= 100)
+	VERIF_LOOP_INVARIANT(verif_rb_fail == VERIF_LOOP_ENTRY(verif_rb_fail))
+	VERIF_LOOP_INVARIANT(verif_rb_calls == VERIF_LOOP_ENTRY(verif_rb_calls) + (100 - max_tries))
+	VERIF_LOOP_INVARIANT(max_tries == 100 || (verif_rb_buf == (size_t)r && verif_rb_len == 32))
+	VERIF_LOOP_DECREASES(max_tries)
+	{
 		if (!max_tries) {
 			// caller call this function again if return zero
 			return 0;
